@@ -184,6 +184,57 @@ def _limit(mem_gb):
     return f
 
 
+def compute_unwindset(src, root, crate, harnesses, mem_gb=None):
+    """Per-loop unwind bounds (CBMC --unwindset) for harnesses that declare `unwindset = ["<substring of
+    the function's display name>:<k>", ...]`. The loops are looked up in the harness's goto binary
+    (goto-instrument --show-loops) after a codegen-only build, so the ids always match the current
+    tree. Unwinding assertions stay on: a bound that is too small fails the harness (inconclusive),
+    it never truncates silently. Returns (unwindset string or None, [log lines])."""
+    want = [h for h in harnesses if h.get("unwindset")]
+    if not want:
+        return None, []
+    tdir = os.path.join(root, "target")
+    cmd = ["cargo", "kani", "-p", crate, "--target-dir", tdir, "--output-format", "terse",
+           "-Z", "unstable-options", "-Z", "stubbing", "--only-codegen", "--exact"]
+    for h in want:
+        cmd += ["--harness", h["_fq"]]
+    r = subprocess.run(cmd, cwd=src, capture_output=True, text=True, env=env_offline(), preexec_fn=_limit(mem_gb))
+    if r.returncode != 0:
+        raise InfraError("codegen-only build failed:\n" + "\n".join((r.stdout + r.stderr).splitlines()[-30:]))
+    pairs = {}
+    notes = []
+    for h in want:
+        cands = []
+        for dp, dn, fn in os.walk(os.path.join(tdir, "kani")):
+            for f in fn:
+                if f.endswith(h["name"] + ".out") and not f.endswith(".symtab.out"):
+                    cands.append(os.path.join(dp, f))
+        if not cands:
+            raise InfraError(f"goto binary of {h['name']} not found for --unwindset lookup")
+        gb = max(cands, key=os.path.getmtime)
+        out = subprocess.run(["goto-instrument", "--show-loops", gb], capture_output=True, text=True).stdout
+        loops = []  # (id, function display)
+        cur = None
+        for line in out.splitlines():
+            m = re.match(r"Loop (\S+):$", line)
+            if m:
+                cur = m.group(1)
+                continue
+            m = re.search(r" function (.*)$", line)
+            if m and cur:
+                loops.append((cur, m.group(1)))
+                cur = None
+        for spec in h["unwindset"]:
+            pat, k = spec.rsplit(":", 1)
+            hit = [lid for lid, fn_ in loops if pat in fn_]
+            if not hit:
+                raise InfraError(f"unwindset pattern `{pat}` of {h['name']} matches no loop in the current tree")
+            for lid in hit:
+                pairs[lid] = max(int(k), pairs.get(lid, 0))
+            notes.append(f"{h['name']}: {pat} -> {len(hit)} loop(s) unwound {k}")
+    return ",".join(f"{lid}:{k}" for lid, k in sorted(pairs.items())), notes
+
+
 def run_kani(src, root, crate, harnesses, jobs, extra_args=(), tag="run", mem_gb=None, wall=None):
     """One `cargo kani` invocation over `harnesses` (all in `crate`). Returns (json|None, logtext, wall_s, cmd)."""
     tdir = os.path.join(root, "target")
@@ -200,6 +251,9 @@ def run_kani(src, root, crate, harnesses, jobs, extra_args=(), tag="run", mem_gb
     for h in harnesses:
         cmd += ["--harness", h["_fq"]]
     cmd += list(extra_args)
+    uw, _notes = compute_unwindset(src, root, crate, harnesses, mem_gb)
+    if uw:
+        cmd += ["--cbmc-args", "--unwindset", uw]   # must be the last flag
     t0 = time.time()
     if wall is None:
         # generous global cap: build + sequential worst case divided by jobs
